@@ -263,3 +263,23 @@ LEMMAS.update({
                          "M = S only if it is the only element, and no trap space lies strictly inside M (NormSig(N,M,r) = empty)   [Lean: Trap.lean IsMinTrap.*, exists_minTrap]",
     "def.SkipOK": "SkipOK(N,S,sig) holds when sig is the attachment signature of an enumeration of MinTrapSet(N,S) (definition; introduction rule with witness list)",
 })
+
+
+# ---------------------------------------------------------------------- percolated networks (opaque objects)
+BNS = z3.DeclareSort("BooleanNetwork")
+PercNetObj = z3.Function("PercNetObj", BNS, SpaceS, BNS)      # percolate_network(bn, S, graph, remove_constants=True)
+EmptyBN = z3.Const("EmptyBN", BNS)                            # BooleanNetwork()
+PNOfNet = z3.Function("PNOfNet", BNS, PNS)                    # network_to_petrinet(bn)
+LEMMAS.update({
+    "L5.percolated_network_encodes": "bn' = percolate_network(bn, S, remove_constants=True) for a Perc-closed trap space S  ==>  "
+                                     "network_to_petrinet(bn') encodes N on S: Encodes(PNOfNet(bn'), N, S)   [AEON inline_constants / infer_valid_graph assumed; bounded validation (C10)]",
+})
+FoldSigF = None
+
+def card_order(a, b):
+    """instance of def.card for the pair (a, b)"""
+    return z3.Implies(z3.And(subspace(a, b), wf_space(a), wf_space(b)),
+                      z3.And(card(a) >= card(b), z3.Implies(card(a) == card(b), a == b)))
+
+
+LEMMAS["def.card"] = "card(S) = number of fixed variables: S ⊑ T implies card(S) >= card(T), with equality only if S = T (finite dom)"
